@@ -835,7 +835,7 @@ func c20HookSelection(c *Ctx, r *R) {
 			n++
 			dom := false
 			for _, e := range eq {
-				if a.At != nil && (eng.EdgeDominates(e, a.At) || e.To() == a.At) {
+				if a.At != nil && eng.EdgeDominates(e, a.At) {
 					dom = true
 				}
 			}
